@@ -114,5 +114,5 @@ def run(ctx, report):
     from common import Only
     from rules import c09
     # the size limit is a test on the consumed item, not on a quantity that includes what follows the record
-    c09.run(ctx, Only(report, {"DECODE": "SIZE-GUARD"}))
+    c09._own_run(ctx, Only(report, {"DECODE": "SIZE-GUARD"}))
 
